@@ -35,12 +35,16 @@ func outcome(f func()) (kind, detail string) {
 	return "ok", ""
 }
 
-// TestInfoEmptyKeyStored explores key sets that contain the EMPTY key. The property text lists
-// the empty key, but no production writer can store it (empty metric names and tag values are
-// rejected by all three ingestion paths, the namespace dictionary is addressed by namespace[0],
-// series keys are 8 bytes), so the outcome is only counted in the evidence (classes
-// info:empty-key-stored:*) and the test cannot fail.
-func TestInfoEmptyKeyStored(t *testing.T) {
+// TestTrieEmptyKeyStored: key sets that contain the EMPTY key, at the trie level (the bucket level
+// is TestBucketDegenerate / TestBucketSortedMap / TestFlushReadMerge). The property text lists the
+// empty key; no production writer stores it today (empty metric names and tag values are rejected
+// by all three ingestion paths, the namespace dictionary is addressed by namespace[0], series keys
+// are 8 bytes), but the dictionary API accepts it and answers for it, so key sets of >= 2 keys
+// with the empty key are asserted like any other. The key set {""} alone cannot be built (known
+// finding sigLoneEmptyKey): while that is excluded its outcome is only counted (classes
+// info:empty-key-alone:*).
+func TestTrieEmptyKeyStored(t *testing.T) {
+	const grp = "TestTrieEmptyKeyStored"
 	shown := 0
 	rapid.Check(t, func(t *rapid.T) {
 		sp := drawKeySetSpec(t, 70)
@@ -49,24 +53,33 @@ func TestInfoEmptyKeyStored(t *testing.T) {
 		if n > 0 {
 			keys = genKeys(sp.s, sp.style, n, nil)
 		}
-		keys = append(keys, []byte{})
+		at := rapid.IntRange(0, len(keys)).Draw(t, "emptyKeyPos")
+		keys = append(keys, nil)
+		copy(keys[at+1:], keys[at:])
+		keys[at] = []byte{}
 		m := newSortedMap(keys, genValues(sp.s, len(keys), false, 0))
 		probes := genProbes(sp.s, sp.style, m, 100)
-		kind, detail := outcome(func() {
-			mem, _, loaded := buildTrie(softT{}, m)
-			checkTrie(softT{}, "in-memory", mem, m, probes, &prngSrc{s: 1})
-			checkTrie(softT{}, "loaded", loaded, m, probes, &prngSrc{s: 1})
-		})
-		class := "info:empty-key-stored:" + kind
-		if m.len() == 1 {
-			class = "info:empty-key-alone:" + kind
+		walkSeed := rapid.Uint64().Draw(t, "walkSeed")
+		if m.len() == 1 && excluded(sigLoneEmptyKey) {
+			kind, detail := outcome(func() {
+				mem, _, loaded := buildTrie(softT{}, m)
+				checkTrie(softT{}, "in-memory", mem, m, probes, &prngSrc{s: walkSeed})
+				checkTrie(softT{}, "loaded", loaded, m, probes, &prngSrc{s: walkSeed})
+			})
+			if kind != "ok" && shown < 3 {
+				shown++
+				ev.Note(fmt.Sprintf("empty-key-alone-example-%d", shown), detail)
+			}
+			flushInfo(grp)
+			ev.Case(grp, m.canon(), false, []string{"excluded_known:info:empty-key-alone:" + kind}, nil)
+			return
 		}
-		if kind != "ok" && shown < 3 {
-			shown++
-			ev.Note(fmt.Sprintf("empty-key-example-%d", shown), detail)
-		}
-		flushInfo("TestInfoEmptyKeyStored")
-		ev.Case("TestInfoEmptyKeyStored", m.canon(), false, []string{class}, nil)
+		mem, _, loaded := buildTrie(t, m)
+		checkTrie(t, "in-memory trie with the empty key", mem, m, probes, &prngSrc{s: walkSeed})
+		checkTrie(t, "loaded trie with the empty key", loaded, m, probes, &prngSrc{s: walkSeed})
+		flushInfo(grp)
+		ev.Case(grp, m.canon(), m.hasPrefixPair(), append(trieClasses(sp, m), "has-empty-key"),
+			map[string]any{"style": sp.style.name, "keys": m.len(), "first": m.describe(8)})
 	})
 }
 
@@ -121,12 +134,20 @@ func TestInfoDuplicateKeyAcrossDictionaries(t *testing.T) {
 
 // ---- native fuzz target (thorough tier) ----------------------------------------------------------
 
-// decodeKeys turns fuzz bytes into a key set: records `len(1 byte, mod 24)+1 | bytes`; duplicates
-// and the empty key are dropped (production never stores them).
+// decodeKeys turns fuzz bytes into a key set: records `len(1 byte, mod 24)+1 | bytes`; the length
+// byte 0xFF is a record of its own: the empty key. Duplicates are dropped.
 func decodeKeys(data []byte) [][]byte {
 	seen := map[string]struct{}{}
 	var keys [][]byte
 	for len(data) > 0 && len(keys) < 300 {
+		if data[0] == 0xff {
+			data = data[1:]
+			if _, ok := seen[""]; !ok {
+				seen[""] = struct{}{}
+				keys = append(keys, []byte{})
+			}
+			continue
+		}
 		n := int(data[0])%24 + 1
 		data = data[1:]
 		if n > len(data) {
@@ -151,6 +172,8 @@ func decodeKeys(data []byte) [][]byte {
 func FuzzTrie(f *testing.F) {
 	f.Add([]byte("\x00a\x01ab\x02abc\x00b\x00\xff"), uint8(2))
 	f.Add([]byte("\x00\xff"), uint8(1))
+	f.Add([]byte("\xff\x00a\x01ab\x00\xff"), uint8(1))
+	f.Add([]byte("\x00b\xff"), uint8(0))
 	f.Add([]byte("\x07host-001\x07host-002\x06host-01\x04host\x03hos\x10host-001.lindb.io"), uint8(3))
 	f.Add([]byte("\x07\x00\x00\x00\x00\x00\x00\x00\xff\x07\x00\x00\x00\x00\x00\x00\xff\xff\x07\xff\xff\xff\xff\xff\xff\xff\xff"), uint8(1))
 	f.Fuzz(func(t *testing.T, data []byte, bs uint8) {
@@ -163,12 +186,19 @@ func FuzzTrie(f *testing.F) {
 			vals[i] = uint32(i) * 3
 		}
 		m := newSortedMap(keys, vals)
+		hasEmpty := len(m.keys[0]) == 0
+		if hasEmpty && m.len() == 1 && excluded(sigLoneEmptyKey) {
+			return // known finding: the dictionary {""} cannot be built
+		}
 		s := &prngSrc{s: uint64(len(data))*131 + uint64(bs)}
 		probes := genProbes(s, styleBytes, m, 200)
 		mem, _, loaded := buildTrie(t, m)
 		checkTrie(t, "fuzz in-memory", mem, m, probes, &prngSrc{s: 1})
 		checkTrie(t, "fuzz loaded", loaded, m, probes, &prngSrc{s: 1})
 		blockSize := int(bs)%8 + 1
+		if blockSize == 1 && hasEmpty && excludedBlock1() {
+			blockSize = 2 // known finding: a trie of the empty key alone cannot be built
+		}
 		bucket := model.NewTrieBucket()
 		if err := bucket.Unmarshal(writeDict(t, keys, vals, blockSize)); err != nil {
 			t.Fatalf("Unmarshal: %v", err)
